@@ -176,8 +176,9 @@ Lemma guards_FilterUnhealthyStore_ok : guards_FilterUnhealthyStore =
   [("store == nil || store.IsTombstone() || store.IsUnhealthy() || store.IsPhysicallyDestroyed()", "...")].
 Proof. reflexivity. Qed.
 
+(* (the region loader became a closure with /repo a1d13b1, another property's fix: `DeferE [Ret]`) *)
 (* LoadClusterInfo (fix 67efccf): every record LoadStores delivers is put over the cache, and cached stores that storage no longer holds
    are dropped - the BasicCluster outlives a leadership term (model: restart / HReelect serve exactly what is stored) *)
 Lemma skel_LoadClusterInfo_ok : skel_LoadClusterInfo =
-  [Call "LoadMeta"; IfE "err != nil" [Ret] []; IfE "!ok" [Ret] []; DeferE [Call "PutStore"]; Call "LoadStores"; IfE "err != nil" [Ret] []; Call "GetStores"; ForE [IfE "!ok" [Call "DeleteStore"] []]; Call "LoadRegionsOnce"; IfE "err != nil" [Ret] []; Call "GetStores"; Ret].
+  [Call "LoadMeta"; IfE "err != nil" [Ret] []; IfE "!ok" [Ret] []; DeferE [Call "PutStore"]; Call "LoadStores"; IfE "err != nil" [Ret] []; Call "GetStores"; ForE [IfE "!ok" [Call "DeleteStore"] []]; DeferE [Ret]; Call "LoadRegionsOnce"; IfE "err != nil" [Ret] []; Call "GetStores"; Ret].
 Proof. reflexivity. Qed.
